@@ -26,7 +26,7 @@ def main():
         with open(a.replay) as f:
             rec = json.load(f)
         pid = rec["property"]
-        rs = drive.replay_case(pid, rec["case"], a.tier, times=1)
+        rs = drive.replay_case(pid, rec["case"], a.tier, times=1, preamble=rec.get("preamble"))
         r = rs[0]
         print("REPLAY property=%s status=%s signature=%s" % (pid, r.status, r.signature))
         if r.detail:
